@@ -241,8 +241,11 @@ func cmdOutcodec(seed int64, n int, out, replay, tier string) {
 		}
 		for len(cs) < n {
 			pver := uint32(r.Intn(2))
-			if r.Intn(4) == 0 {
+			if k := r.Intn(8); k == 0 || k == 1 {
 				cs = append(cs, outcodecCase(outcodecIn{PVer: pver, Raw: genMutatedOutcomeMsg(r, pver)}, "mutated-message"))
+			} else if k == 2 {
+				// raw byte damage to a valid encoding: bit flips, truncation, duplicated spans, unknown-field groups
+				cs = append(cs, outcodecCase(outcodecIn{PVer: pver, Raw: flipBytes(r, genValidOutcomeBytes(r, pver, false))}, "damaged-bytes"))
 			} else {
 				cs = append(cs, outcodecCase(outcodecIn{PVer: pver, Outcome: genOutcomeDesc(r, pver, maxCh)}, "structured"))
 			}
